@@ -302,11 +302,11 @@ def main():
                        "primitive-op semantics as documented; validated against the real SimpleEvaluator node by node on every source and compiled graph",
                        "programs are generated (families listed under bounds), inputs/sharings/tapes are decided by the solver"]
     outs = run(chk, cases, timeout_s=60 if chk.tier == "quick" else 300)
-    templates = {c["template"] for c in cases}
+    templates = {c["template"] for c in cases if any(o != "public" for o in c["owners"])}
     chk.finish(dict(programs=len(cases), disagreements_checked=chk.counts.get("models_replayed", 0),
                     evaluations=len(cases), distinct_nontrivial=len(templates),
-                    rule="a program = (source graph template, scalar type, owner vector, output parties, inline mode); distinct = distinct source templates; "
-                         "non-trivial = the compiled graph contains at least one private (shared) node",
+                    rule="a program = (source graph template, scalar type, owner vector, output parties, inline mode); distinct_nontrivial = number of distinct source templates "
+                         "that occur with at least one non-public input (so that the compiled graph contains shared values)",
                     explanation="source graph S vs compile_context(S) as SMT terms over inputs, input sharings and every Random/PRF value; unsat of 'outputs differ' per program"))
 
 
